@@ -2,7 +2,7 @@
 from .. import app, engine, fixlib
 from ..runner import Run
 
-PLAN = {"B2/53": 560, "B3/89": 320, "B4/83": 160, "N1/11": 720, "W1/2": 560, "S2": 400, "S3": 96, "I4/97": 240, "U1/7": 80, "H4/3": 160, "P2": 320, "R2/3": 500, "R3": 400, "K7": 400, "T4/5": 250}
+PLAN = {"B2/53": 560, "B3/89": 320, "B4/83": 160, "N1/11": 720, "W1/2": 560, "S2": 400, "S3": 96, "I4/97": 240, "U1/7": 80, "H4/3": 160, "P2": 320, "R2/3": 500, "R3": 400, "K7": 400, "T4/5": 250, "Z1": 500}
 EVALUATOR = "vp.props.c09:ev"
 RULE = (
     "documents = sub-lattices of the bounded universes that parse and scan cleanly; configurations per document: default rule set, up to 2 single fix-capable default rules "
